@@ -3,8 +3,8 @@ CONSTANTS
   Paths = {"p1", "p2"}
   Vals = {1, 2}
   MaxOps = 4
-  UpdatesOnly = FALSE
-  Mutant = "none"
-INVARIANTS Converge NoLostUpdate SyncAfterSnapshot Backlog
+  UpdatesOnly = TRUE
+  Mutant = "uo_sync_after_register"
+INVARIANTS UOSyncFirst Backlog Converge NoLostUpdate SyncAfterSnapshot
 CHECK_DEADLOCK FALSE
 PROPERTIES EventuallySynced EventuallyConverged
